@@ -1,7 +1,7 @@
 _ANCH = ["src/hgraph/runtime/switch_node.cpp", "include/hgraph/runtime/switch_node.h", "include/hgraph/runtime/nested_bindings.h",
          "include/hgraph/lib/std/operators/impl/higher_order_impl.h", "src/hgraph/lib/std/operators/higher_order_impl.cpp"]
 _SRC = "harness/C12_switch.cpp"
-_B = ("branches {key 0: x+1, key 1: running sum (State), key 2: self-scheduling (re-emits one cycle after each tick of x from its own NodeScheduler), "
+_B = ("branches {key 0: two-node sub-graph (a heartbeat node scheduled on start + a separate consumer x+1 of the held input), key 1: running sum (State), key 2: self-scheduling (re-emits one cycle after each tick of x from its own NodeScheduler), "
       "default (enumerated present/absent): key-consuming and stateful key*1000+x+1e6*age}; reload_on_ticked enumerated on/off; NCYC engine cycles, in each the key source "
       "{does not tick, ticks 0, 1, 2, 3, 4} (3 and 4 are both unmatched: a change between them switches from the default branch to a fresh default instance) and x {ticks with a fresh unconstrained symbolic int64, does not tick} (all combinations); checked after every "
       "cycle plus one trailing cycle for pending timers")
@@ -13,7 +13,7 @@ reg("C12",
     quick=dict(defs=dict(CONFIGS="{0,4},{1,3}", RELOADS=2, DEFAULTS=2), symx=dict(shards=16, **{"max-wall": 900, "query-timeout-ms": 120000})),
     thorough=dict(defs=dict(CONFIGS="{0,5},{1,4}", RELOADS=2, DEFAULTS=2), symx=dict(shards=16, **{"max-wall": 3000, "shard-depth": 8, "query-timeout-ms": 120000})),
     reach=["end", "switched", "three_switches", "returned_to_earlier_key", "switch_and_input_tick_same_cycle", "switched_away_with_pending_timer",
-           "reload_on_same_key", "same_key_tick_without_reload", "default_branch_selected", "default_to_default_key_change", "branch_timer_fired", "selected_before_input_valid",
+           "reload_on_same_key", "same_key_tick_without_reload", "default_branch_selected", "default_to_default_key_change", "branch_due_at_activation_and_held_input_consumer", "branch_timer_fired", "selected_before_input_valid",
            "unmatched_key_throws"],
     bounds="configurations {key type, NCYC}: quick {int,4},{str,3}; thorough {int,5},{str,4}; " + _B + "; with int keys the unmatched keys 3, 4 are only scripted "
            "when a default branch exists; with string keys 'k0'..'k4' they are also scripted without default branch and must make run() throw (and only then)",
